@@ -444,6 +444,11 @@ func stimReplay(prop string) func(c *harness.Ctx, raw json.RawMessage) {
 				if n, _ := fmt.Sscanf(name, "two-peers-rx/cut%d", &cut); n == 1 {
 					return twoPeersRxScn(prop, cut, 3)
 				}
+				for _, p := range c04FaultParams() {
+					if p.name() == name {
+						return c04ScnFor(prop, p, 3)
+					}
+				}
 				return nil
 			})(c, raw)
 			return
@@ -501,6 +506,19 @@ func c08Check(c *harness.Ctx) {
 				b = 3
 			}
 			if !exploreScn(c, "C08", twoPeersRxScn("C08", cut, b)) {
+				return
+			}
+		}
+		// the NOTIFICATION for a header fault while plugin goroutines are writing: it is a message of its own
+		for i, p := range c04FaultParams() {
+			if !c.Mine(i + 3) {
+				continue
+			}
+			b := 3 // the NOTIFICATION has to land between two writes of one WriteUpdate call: three deviations
+			if th {
+				b = 4
+			}
+			if !exploreScn(c, "C08", c04ScnFor("C08", p, b)) {
 				return
 			}
 		}
